@@ -432,3 +432,26 @@ def _custom_iter(self, ex, st, fr, node, it, ordinal):
 
 
 MocloModels.custom_iter = _custom_iter
+
+
+_orig_comprehension = MocloModels.comprehension
+
+
+def _comprehension(self, ex, st, fr, node, gen, it, what):
+    """`mod.record.id for mod in self.modules` (generator fed to ", ".join): the ids of the modules in order"""
+    import ast
+    if what == "gen" and isinstance(it, VT) and it.t.sort == tm.seq_sort(INT) and isinstance(gen.target, ast.Name):
+        if ast.unparse(node.elt) == "%s.record.id" % gen.target.id:
+            o = VObj("IdGen")
+            return [(st.set(o, "M", it), "ok", o)]
+    return _orig_comprehension(self, ex, st, fr, node, gen, it, what)
+
+
+def _join_of(self, ex, st, fr, sep, v):
+    if isinstance(v, VObj) and v.kind == "IdGen" and tm.is_const(sep.t) and tm.cval(sep.t) == ", ":
+        return [(st, "ok", VT(tm.app("join_ids", STR, st.get(v, "M").t)))]
+    return None
+
+
+MocloModels.comprehension = _comprehension
+MocloModels.join_of = _join_of
